@@ -90,6 +90,18 @@ impl Builder<'_> {
                 if let Some(p) = parent {
                     e.push((k("Parent"), RObj::Ref(p, 0)));
                 }
+                // /Type says what a node is: a page stays a page when it carries entries that belong to
+                // intermediate nodes (extra entries are legal in any dictionary)
+                match self.r.below(24) {
+                    0 => e.push((k("Kids"), RObj::Array(vec![]))),
+                    1 if !self.order.is_empty() => {
+                        let other = *self.r.pick(&self.order);
+                        e.push((k("Kids"), RObj::Array(vec![RObj::Ref(other.0, other.1)])));
+                    }
+                    2 => e.push((k("Count"), RObj::Int(self.r.below(5) as i64))),
+                    3 => e.push((k("MediaBox"), RObj::Array(vec![RObj::Int(0), RObj::Int(0), RObj::Int(612), RObj::Int(792)]))),
+                    _ => {}
+                }
                 self.doc.objects.insert((id, 0), RObj::Dict(e));
                 self.order.push((id, 0));
             }
@@ -362,7 +374,7 @@ pub fn run(cfg: &RunCfg) -> (PropMeta, ShardOut, Map<String, Value>) {
     );
     let meta = PropMeta {
         level: "exploration",
-        rule: "random page trees (depth 0..255, fan-out 0..40, bushy / deep-thin / wide / empty-intermediate shapes, pages and nodes interleaved, object ids shuffled so that id order differs from page order, Kids held directly, behind a reference or a chain of references, up to 20,000 nodes): page_iter() must equal the model's depth-first leaf order and get_pages() must number it 1..n. One case in four is a malformed variant (kid cycles, junk kids, missing/wrong Type, dangling kids, absurd Count, shared kids): enumeration must terminate within the CPU budget without panic/abort and yield only Page dictionaries. Cases run in isolated workers under the process monitor. distinct = distinct documents.".into(),
+        rule: "random page trees (depth 0..255, fan-out 0..40, bushy / deep-thin / wide / empty-intermediate shapes, pages and nodes interleaved, object ids shuffled so that id order differs from page order, Kids held directly, behind a reference or a chain of references, pages now and then carrying stray Kids / Count entries, up to 20,000 nodes): page_iter() must equal the model's depth-first leaf order and get_pages() must number it 1..n. One case in four is a malformed variant (kid cycles, junk kids, missing/wrong Type, dangling kids, absurd Count, shared kids): enumeration must terminate within the CPU budget without panic/abort and yield only Page dictionaries. Cases run in isolated workers under the process monitor. distinct = distinct documents.".into(),
         assumptions: vec!["depth counts Pages levels below the root; the documented limit is 256".into()],
         exhaustive: false,
         min_distinct: 500,
